@@ -1668,10 +1668,14 @@ func (h *ResponseHeader) SetCookie(cookie *Cookie) {
 }
 
 // SetCookie sets 'key: value' cookies.
+//
+// ';' separates the pairs of a Cookie header, so every ';' in key or value is
+// replaced with a space, the same as Cookie.SetKey and Cookie.SetValue do:
+// otherwise a value taken from untrusted input could add cookies to the request.
 func (h *RequestHeader) SetCookie(key, value string) {
 	h.collectCookies()
-	h.bufK = initHeaderValueString(h.bufK, key)
-	h.bufV = initHeaderValueString(h.bufV, value)
+	h.bufK = removeSemicolons(initHeaderValueString(h.bufK, key))
+	h.bufV = removeSemicolons(initHeaderValueString(h.bufV, value))
 	h.cookies = setArgBytes(h.cookies, h.bufK, h.bufV, argsHasValue)
 }
 
